@@ -11,6 +11,11 @@ dsim_checks = {
  "C23": ("exploration", "Same runs as C22; every engine append is reported by the hook with the node label of the task performing it and checked at that instant against that node's applied metadata.", "§6 C23", "deterministic simulation: write events checked against the writer's applied metadata"),
  "C24": ("exploration", "Byte streams of valid and malformed frames through the real listener/handle_connection over a simulated socket with seeded chunking; responses matched positionally against a reference framer; PUT/GET payload identity.", "§6 C24", "deterministic simulation: seeded byte streams and chunking vs reference framer"),
 }
+OSIM_NOTE = ("Trusted base: type-only shims of openraft/futures/quinn (sim/shims), the simulator's tokio (futures driven by block_on), bincode = serde_json, a 10-line bridge between the two declarations of StateMachineTrait. The vendored engine copy under octopii/src/wal/wal has no I/O hooks: kill points are operation boundaries. node.rs (peer-address helpers) cannot be compiled offline; its mechanism is exercised at the WriteAheadLog level. Seeded sampling, not a proof.")
+osim_checks = {
+ "C20": ("exploration", "Seeded metadata command sequences applied as openraft entries through the real MemStateMachine adapter over the real Metadata; build_snapshot on the sender, install_snapshot into a fresh adapter; receiver == sender at the snapshot point and after the common suffix; Metadata snapshot->restore round trip.", "§6 C20", "deterministic simulation: snapshot build/install at seeded points through the real adapter"),
+ "C21": ("exploration", "Seeded histories of log-store operations on the real WalLogStore/WriteAheadLog/vendored engine and of opaque records on a second WriteAheadLog, with 1-4 reopen events (fresh process each, clean drop or kill at an operation boundary); a BTreeMap model of acknowledged operations is compared with the reopened store.", "§6 C21", "deterministic simulation: restart histories vs model of acknowledged operations"),
+}
 checks = {
  "C01": ("exploration", "Seeded operation sequences on the real engine under the simulator, compared op by op with a reference log+cursor model (both read APIs, all budgets, sizes 0..multi-block, both backends, both consistency modes, both geometries). Tests sample a handful of sequences; this samples thousands per minute with boundary-biased sizes and budgets.", "§4 C01", "deterministic simulation: seeded op sequences vs reference model"),
  "C02": ("exploration", "C01 workload plus peeks and offset-addressed reads, each peek paired with its consuming twin and bracketed by snapshots of the reclamation bookkeeping (hook accessor); any later read/count disagreement with the model is attributed to the non-consuming calls.", "§4 C02", "deterministic simulation: peek/consume twins, bookkeeping snapshots, reference model"),
@@ -34,7 +39,7 @@ na = [
  ("C19", "the mechanism is the vendored openraft core plus octopii node/network glue; neither compiles offline here (tokio, futures and eight more crates are absent) and a stand-in would test the stand-in (DESIGN §7)"),
  ("C25", "pure string codec (wal_key/parse_wal_key): nothing for a simulator to schedule or fault (DESIGN §7)"),
 ]
-pending = ["C20","C21"]
+pending = []
 for p in pending:
     na.append((p, "not claimed yet: its simulation profile is still being built (see DESIGN.md §0); no check is registered"))
 commits = subprocess.run(["git","-C","/repo","log","--format=%h %s","--grep=^verif hooks"],capture_output=True,text=True).stdout.strip().splitlines()
@@ -67,6 +72,20 @@ for pid in sorted(dsim_checks):
       "engine": "dsim",
       "level_claimed": {"category": cat, "text": text, "design_ref": ref},
       "level_note": DSIM_NOTE,
+      "technique": tech,
+    })
+m["engines"].append({"name": "osim", "path": "sim/osim", "serves_properties": sorted(osim_checks.keys()), "kind_free_text": "the real octopii storage adapter, WAL wrapper and vendored engine copy plus the real Metadata state machine, compiled against type-only shims of openraft/futures/quinn and the simulator's tokio; one OS process per incarnation for restart histories"})
+for pid in sorted(osim_checks):
+    cat, text, ref, tech = osim_checks[pid]
+    m["checks"].append({
+      "property_id": pid,
+      "quick_cmd": f"./check {pid} quick",
+      "thorough_cmd": f"./check {pid} thorough",
+      "evidence_file": f"/verif/evidence/{pid}.json",
+      "replay_cmd_template": "./check replay {path}",
+      "engine": "osim",
+      "level_claimed": {"category": cat, "text": text, "design_ref": ref},
+      "level_note": OSIM_NOTE,
       "technique": tech,
     })
 for pid in sorted(checks):
